@@ -12,7 +12,7 @@ from . import common, mapfam
 
 ID = 'C02'
 LEVEL = 'exploration'
-QUOTA = {'quick': 900, 'thorough': 10000}
+QUOTA = {'quick': 1500, 'thorough': 10000}
 BUDGET = {'quick': 100, 'thorough': 900}
 RULE = ('scenario = generated world x run configuration x seeded schedule, with the bootstrap draws recorded '
         'inside the workers; an evaluation is one (cell, node) result recomputed from input files and recorded '
